@@ -8,7 +8,7 @@
 From GL Require Import Base.Order Base.Varint Base.VarintProofs Base.Cursor Base.CursorProofs
   Codec.BytesCmp Codec.BytesCmpProofs Codec.Block Codec.BlockEnc Codec.BlockProofs
   Codec.Table Codec.TableProofs Codec.TableIterProofs Codec.TableDamageProofs
-  Codec.TableCheck Codec.TableCheckProofs Codec.TblCrc Gen.ConstsOkTbl.
+  Codec.TableCheck Codec.TableCheckProofs Codec.TableWriteProofs Codec.TblCrc Gen.ConstsOkTbl.
 
 (* A.0  uvarint: Uvarint (PutUvarint x ++ rest) = (x, len) for every uint64 x. *)
 Theorem C13_uvarint_roundtrip : forall x rest, (x < 2 ^ 64)%N ->
@@ -157,14 +157,55 @@ Theorem C13_table_check_sound : forall c rd ri kvs, table_check c rd ri = Some k
 Proof. exact table_check_sound. Qed.
 Print Assumptions C13_table_check_sound.
 
-(* C.3  table_wf_of_write — NOT PROVED IN GENERAL (stated; instances are checked by computation):
-   FULL STATEMENT: for every comparer satisfying the contract for which the empty key is least,
-   every blockSize, restart interval >= 1, codec with decompress (compress x) = Some x, checksum
-   below 2^32, filter generator, and strictly increasing kvs whose file is shorter than 2^32 bytes:
-     twrite ... kvs = Some file  and  table_check c (open_table ... file) ri = Some kvs.
-   The Example below is one instance (three data blocks); the correspondence run checks the same
-   for the model writer against the Go writer byte for byte (soft) and table_check on every file
-   written by the Go writer (hard). *)
+(* C.3  table_wf_of_write — PARTIAL: proved for Compression = NoCompression and a reader opened
+   without a filter, any filter generator on the writer side, any block size, restart interval
+   >= 1, any checksum function below 2^32, any comparer satisfying the contract for which the
+   empty key is least (the Go writer tests len(key) == 0 to mean "no next key").  The file the
+   model writer produces for strictly increasing pairs is, when opened by the model reader with
+   or without checksum verification, a well-formed table holding exactly those pairs — so
+   B.1-B.6 apply to it.
+   FULL STATEMENT (not proved): the same with snappy = true for every codec with
+   decompress (compress x) = Some x and non-empty output (the uncompressed blocks are then not
+   bounded by the file length: it needs a size hypothesis on the pairs and on the separators),
+   and for a reader opened with the writer's filter name (metaindex scan). *)
+Theorem C13_table_wf_of_write_partial :
+  forall tp crc compress decompress fcontains c blockSize ri fgen kvs file verify,
+  tparams_ok tp -> (forall b, (crc b < 2 ^ 32)%N) -> (forall x, decompress (compress x) = Some x) ->
+  comparer_ok c -> (forall k, cmp c [] k <> Gt) -> (1 <= ri)%N ->
+  sorted c kvs ->
+  twrite tp crc compress c blockSize ri false fgen kvs = Some file -> (lenN file < 2 ^ 32)%N ->
+  exists blocks seps hs,
+    table_wf c (open_table tp crc decompress fcontains c file None verify) blocks seps hs /\
+    tkvs blocks = kvs.
+Proof.
+  intros tp crc compress decompress fcontains c blockSize ri fgen kvs file verify Htp Hcrc Hcodec Hc Hel Hri.
+  exact (table_wf_of_write tp Htp crc Hcrc compress decompress Hcodec fcontains c Hc Hel blockSize ri Hri fgen kvs file verify).
+Qed.
+Print Assumptions C13_table_wf_of_write_partial.
+
+(* C.4  the round trip end to end (same scope as C.3): a table written from strictly increasing
+   pairs and opened again yields exactly those pairs — exact lookups, first-key->= lookups,
+   iteration in both directions under arbitrary movement sequences, non-decreasing offsets. *)
+Theorem C13_table_roundtrip_partial :
+  forall tp crc compress decompress fcontains c blockSize ri fgen kvs file verify strict,
+  tparams_ok tp -> (forall b, (crc b < 2 ^ 32)%N) -> (forall x, decompress (compress x) = Some x) ->
+  comparer_ok c -> (forall k, cmp c [] k <> Gt) -> (1 <= ri)%N ->
+  sorted c kvs ->
+  twrite tp crc compress c blockSize ri false fgen kvs = Some file -> (lenN file < 2 ^ 32)%N ->
+  let rd := open_table tp crc decompress fcontains c file None verify in
+  (forall k v, In (k, v) kvs -> tget c rd k = FFound k v) /\
+  (forall k, (forall v, ~ In (k, v) kvs) -> tget c rd k = FNotFound) /\
+  (forall key, tfind c rd key false =
+     match first_ge c key kvs 0 with
+     | Some i => match nth_error kvs i with Some (k, v) => FFound k v | None => FOther end
+     | None => FNotFound
+     end) /\
+  (exists t, new_titer c rd None strict = inr t /\
+     forall ops, fst (ti_run c rd t ops) = c_run c kvs CSOI ops) /\
+  (forall k1 k2, cmp c k1 k2 <> Gt ->
+     exists o1 o2, toffset_of c rd k1 = Ok o1 /\ toffset_of c rd k2 = Ok o2 /\ (o1 <= o2)%N).
+Proof. exact table_roundtrip. Qed.
+Print Assumptions C13_table_roundtrip_partial.
 
 (* the constants of the current source satisfy the layout side conditions *)
 Theorem C13_table_constants_ok : tparams_ok tblp.
